@@ -25,6 +25,11 @@ V, F, I, M, VZ, B, MZ = py2coq.V, py2coq.F, py2coq.I, py2coq.M, py2coq.VZ, py2co
 # `const_names`: module-level constants read from the CURRENT source (py2coq.module_consts: a literal becomes the generated
 # definition `src_const_<NAME>` = its `nlit`, a name bound to np.inf becomes the extra argument `pinf`).
 # `files`: link files (compiled in this order).
+_SGD_K = "_optimize_layout_euclidean_single_epoch"
+_SGD_ARGS = {"head_embedding": M, "tail_embedding": M, "head": VZ, "tail": VZ, "n_vertices": I, "epochs_per_sample": V, "a": F, "b": F,
+             "rng_state_per_sample": MZ, "gamma": F, "dim": I, "move_other": B, "alpha": F, "epochs_per_negative_sample": V,
+             "epoch_of_next_negative_sample": V, "epoch_of_next_sample": V, "n": I, "dens_phi_sum": V, "dens_re_sum": V,
+             "dens_re_cov": F, "dens_re_std": F, "dens_re_mean": F, "dens_lambda": F, "dens_R": V, "dens_mu": V, "dens_mu_tot": F}
 MODULES = {
     "distances": {
         "path": "umap/distances.py",
@@ -37,7 +42,19 @@ MODULES = {
         "eval": "E_distances.v",
         "deps": ["thm/T_metrics.v", "thm/T_metrics_bin.v", "thm/T_metrics_real2.v", "prop/P_C12.v", "model/M_metrics.v"],
     },
-    "layouts": {"path": "umap/layouts.py", "functions": ["clip", "rdist"], "sigs": {}, "files": ["L_layouts.v"]},
+    # C07: clip, rdist and the serial Euclidean SGD epoch kernel.  The kernel is translated TWICE from the one source function
+    # (`source`): `_shared` for calls in which tail_embedding IS head_embedding (`alias`; the fit case) and `_distinct` for calls in
+    # which the two arrays do not overlap (the transform case); both for densmap_flag=False (`fixed`).  tau_rand_int is imported by
+    # layouts.py from umap/utils.py (`imports`: checked against the current import statement) and translated into the same file.
+    "layouts": {"path": "umap/layouts.py",
+                "functions": ["clip", "rdist", "tau_rand_int", _SGD_K + "_shared", _SGD_K + "_distinct"],
+                "imports": {"tau_rand_int": ("umap.utils", "umap/utils.py")},
+                "sigs": {"tau_rand_int": {"args": {"state": VZ}},
+                         _SGD_K + "_shared": {"source": _SGD_K, "args": _SGD_ARGS, "fixed": {"densmap_flag": False},
+                                              "alias": {"tail_embedding": "head_embedding"}},
+                         _SGD_K + "_distinct": {"source": _SGD_K, "args": _SGD_ARGS, "fixed": {"densmap_flag": False}}},
+                "files": ["L_layouts.v", "L_sgd.v"], "eval": "E_layouts.v",
+                "deps": ["model/M_sgd.v", "thm/T_link_mat.v"]},
     "umap_sup": {"path": "umap/umap_.py", "functions": ["fast_intersection", "make_epochs_per_sample"],
                  "sigs": {"fast_intersection": {"args": {"rows": VZ, "cols": VZ, "values": V, "target": VZ, "unknown_dist": F, "far_dist": F}},
                           "make_epochs_per_sample": {"args": {"weights": V, "n_epochs": I}}},
